@@ -86,6 +86,7 @@ THEOREMS = [
     'Nb.C14.gen_readSegments_nolock_eq',
     'Nb.C14.gen_lock_rules_eq',
     'Nb.C14.gen_getUnscaled_eq',
+    'Nb.C14.lock_discipline_record',
 ]
 ASSUMPTIONS = [
     'hand-written small-step Lean model (Model/C14.lean) of the lock/seek/read/opener-slot steps of '
@@ -439,6 +440,170 @@ def skel_generate(ap_module, fs_module):
 
 
 
+# ------------------------------------------------------------------ lexical lock-discipline record (regen)
+
+FILE_METHODS = ('seek', 'read', 'readinto', 'tell', 'readline', 'readlines', 'readall', 'peek', 'write')
+READ_FUNCS = ('array_from_file', 'fileslice', 'read_segments', '_simple_fileslice')
+
+
+def _lockish(e):
+    return _is_name(e, 'lock') or _is_self_attr(e, '_lock')
+
+
+def _walk_sites(node, func, locked, sites, calls):
+    """source-order walk: `sites` += (function, receiver, method, lexically inside a `with <lock>` block) for every
+    file-method call; `calls` += (function, callee, inside `with <lock>`, lock argument) for every call of one of
+    the reading functions"""
+    if isinstance(node, (ast.FunctionDef, ast.AsyncFunctionDef, ast.ClassDef)):
+        name = node.name if not func else func + '.' + node.name
+        for ch in node.body:
+            _walk_sites(ch, name, False if not isinstance(node, ast.ClassDef) else locked, sites, calls)
+        return
+    if isinstance(node, (ast.With, ast.AsyncWith)):
+        inner = locked
+        for it in node.items:
+            _walk_sites(it.context_expr, func, inner, sites, calls)
+            if _lockish(it.context_expr):
+                inner = True
+            elif not isinstance(it.context_expr, (ast.Call, ast.Name, ast.Attribute)):
+                raise SkelError('context manager expression not understood: ' + _src(it.context_expr))
+        for ch in node.body:
+            _walk_sites(ch, func, inner, sites, calls)
+        return
+    if isinstance(node, ast.Lambda) and any(isinstance(n, ast.Attribute) and n.attr in FILE_METHODS
+                                            for n in ast.walk(node)):
+        raise SkelError('file method used inside a lambda: ' + _src(node)[:60])
+    if isinstance(node, ast.Call):
+        f = node.func
+        if isinstance(f, ast.Attribute) and f.attr in FILE_METHODS:
+            sites.append((func or '<module>', _src(f.value), f.attr, locked))
+        if isinstance(f, ast.Name) and f.id in READ_FUNCS:
+            kw = [k for k in node.keywords if k.arg == 'lock']
+            if f.id == 'read_segments' and len(node.args) > 3:
+                la = _src(node.args[3])
+            else:
+                la = _src(kw[0].value) if kw else '-'
+            calls.append((func or '<module>', f.id, locked, la))
+        if isinstance(f, ast.Name) and f.id == 'getattr' and len(node.args) >= 2 and \
+                isinstance(node.args[1], ast.Constant) and node.args[1].value in FILE_METHODS:
+            raise SkelError('file method fetched with getattr: ' + _src(node))
+    for ch in ast.iter_child_nodes(node):
+        _walk_sites(ch, func, locked, sites, calls)
+
+
+def _module_record(module):
+    tree = ast.parse(open(module.__file__).read())
+    sites, calls = [], []
+    for n in tree.body:
+        _walk_sites(n, '', False, sites, calls)
+    return sites, calls
+
+
+def _rs_blocks(fs_module):
+    """read_segments: per `with lock:` block the fileobj operations inside it (in order); fileobj operations
+    outside every such block"""
+    f = _func(fs_module, 'read_segments')
+    blocks, outside = [], []
+
+    def ops_in(node):
+        return [c.func.attr for c in sorted(_file_calls(node, 'fileobj'), key=lambda c: (c.lineno, c.col_offset))]
+
+    def walk(node, inside):
+        if isinstance(node, ast.With) and any(_lockish(it.context_expr) for it in node.items):
+            if inside:
+                raise SkelError('nested lock blocks in read_segments')
+            blocks.append([op for st in node.body for op in ops_in(st)])
+            return
+        if isinstance(node, ast.Call) and isinstance(node.func, ast.Attribute) and _is_name(node.func.value, 'fileobj'):
+            outside.append(node.func.attr)
+        for ch in ast.iter_child_nodes(node):
+            walk(ch, inside)
+    for st in f.body:
+        walk(st, False)
+    return blocks, outside
+
+
+def _derived(ap_module):
+    """methods of ArrayProxy that build a proxy (`self.__class__(...)`) or (re)assign a `_lock`:
+    (method, file_like argument of the construction or '-', symbolic lock of the resulting proxy)"""
+    cls = _func(ap_module, 'ArrayProxy')
+    out = []
+    for m in cls.body:
+        if not isinstance(m, ast.FunctionDef):
+            continue
+        ctor = [n for n in ast.walk(m) if isinstance(n, ast.Call) and _is_self_attr(n.func, '__class__')]
+        stores = [n for n in ast.walk(m) if isinstance(n, ast.Attribute) and n.attr == '_lock'
+                  and isinstance(n.ctx, ast.Store)]
+        if not ctor and not stores:
+            continue
+        if len(ctor) > 1:
+            raise SkelError('%s constructs several proxies' % m.name)
+        if ctor:
+            c = ctor[0]
+            fl = _src(c.args[0]) if c.args else next((_src(k.value) for k in c.keywords if k.arg == 'file_like'), '?')
+            names = {st.targets[0].id for st in m.body if isinstance(st, ast.Assign) and st.value is c
+                     and isinstance(st.targets[0], ast.Name)}
+            rule = _lock_rule(m.body, 'fresh', names)
+        else:
+            fl = '-'
+            rule = _lock_rule(m.body, 'none', {'self'})
+        out.append((m.name, fl, rule))
+    return out
+
+
+def _lean_str(x):
+    import json
+    return json.dumps(x)
+
+
+def _lean_list(rows):
+    def one(r):
+        if isinstance(r, (list,)):
+            return '[' + ', '.join(one(x) for x in r) + ']'
+        if isinstance(r, tuple):
+            return '(' + ', '.join(one(x) for x in r) + ')'
+        if isinstance(r, bool):
+            return 'true' if r else 'false'
+        return _lean_str(r)
+    return '[' + ',\n   '.join(one(r) for r in rows) + ']'
+
+
+LOCK_HEADER = '''/-! GENERATED by harness/props/c14.py regen() from the nibabel working tree (nibabel/fileslice.py,
+    nibabel/arrayproxy.py) - do not edit.  A purely LEXICAL record of the lock discipline: where file methods
+    are called and whether the call sits inside a `with lock:` / `with self._lock:` block, which lock the
+    reading functions are handed, which methods derive a proxy and with which lock.  Props/C14
+    (`lock_discipline_record`) states the expected record; any new file access (an unlocked fast path, a new
+    helper), a dropped or split lock block, or a reversed lock assignment changes the record and breaks it. -/
+namespace Nb.C14.GenLock
+'''
+
+
+def lock_record_generate(ap_module, fs_module):
+    fs_sites, fs_calls = _module_record(fs_module)
+    ap_sites, ap_calls = _module_record(ap_module)
+    blocks, outside = _rs_blocks(fs_module)
+    derived = _derived(ap_module)
+    T4 = 'List (String × String × String × Bool)'
+    C4 = 'List (String × String × Bool × String)'
+    return (LOCK_HEADER +
+            '/-- every file-method call in fileslice.py: (function, receiver, method, inside a lock block) -/\n'
+            'def filesliceSites : %s :=\n  %s\n' % (T4, _lean_list(fs_sites)) +
+            '/-- every file-method call in arrayproxy.py -/\n'
+            'def arrayproxySites : %s :=\n  %s\n' % (T4, _lean_list(ap_sites)) +
+            '/-- read_segments: the fileobj operations inside each `with lock:` block, in order -/\n'
+            'def readSegmentsBlocks : List (List String) :=\n  %s\n' % _lean_list(blocks) +
+            '/-- read_segments: fileobj operations outside every lock block -/\n'
+            'def readSegmentsOutside : List String :=\n  %s\n' % _lean_list(outside) +
+            '/-- calls of the reading functions in fileslice.py: (caller, callee, inside a lock block, lock argument) -/\n'
+            'def filesliceCalls : %s :=\n  %s\n' % (C4, _lean_list(fs_calls)) +
+            '/-- calls of the reading functions in arrayproxy.py -/\n'
+            'def arrayproxyCalls : %s :=\n  %s\n' % (C4, _lean_list(ap_calls)) +
+            '/-- ArrayProxy methods that construct a proxy or assign a lock: (method, file_like of the new proxy,\n'
+            '    lock of the resulting proxy in terms of hasFh / src (= self._lock) / fresh (= a new RLock)) -/\n'
+            'def lockAssigners : List (String × String × String) :=\n  %s\n' % _lean_list(derived) +
+            'end Nb.C14.GenLock\n')
+
+
 def regen():
     """constants of the source the model depends on (re-read from the working tree on every run)"""
     import nibabel.fileslice as fs
@@ -452,6 +617,7 @@ def regen():
     import nibabel.arrayproxy as ap
     # (the generated definitions are not counted as obligations: the theorems about them are in THEOREMS)
     write_if_changed(os.path.join(LEAN, 'NibabelModel', 'Generated', 'C14Src.lean'), skel_generate(ap, fs))
+    write_if_changed(os.path.join(LEAN, 'NibabelModel', 'Generated', 'C14Lock.lean'), lock_record_generate(ap, fs))
     return []
 
 
@@ -790,6 +956,17 @@ class TMin:
         return p
 
 
+class TRawGz(TRaw):
+    """Tracing wrapper around a compressed-file object (GzipFile) opened by ImageOpener for a `.gz` path.
+    `array_from_file` recognises compressed files with `isinstance(fobj, COMPRESSED_FILE_LIKES)`; isinstance
+    falls back to `__class__`, so the wrapper reports the wrapped object's class (the instrumentation must not
+    change which branch the code takes)."""
+
+    @property
+    def __class__(self):
+        return self._f.__class__
+
+
 def _make_instrumented():
     """Classes depending on nibabel (imported lazily so that NIBABEL_REPO is honoured)."""
     import nibabel.arrayproxy as ap
@@ -808,7 +985,7 @@ def _make_instrumented():
                 if S is not None:
                     hid = S.nhandles
                     S.nhandles += 1
-                self.fobj = TRaw(self.fobj, hid)
+                self.fobj = (TRawGz if fileish.endswith('.gz') else TRaw)(self.fobj, hid)
                 TOpener.made.append(self)
                 if t is not None:
                     S.log(t, 'o%d' % hid)
@@ -982,10 +1159,18 @@ def run_real(d, prefix):
         else:
             if topo_of(d):
                 raise ValueError('derived proxies are only generated in the handle scenarios')
-            path = os.path.join(_tmpdir(), 'f_%d.img' % (hash_list(buf) ^ len(buf)))
+            if d['scn'] not in ('keep', 'keepgz'):
+                raise ValueError('unknown scenario ' + str(d['scn']))
+            gz = d['scn'] == 'keepgz'
+            path = os.path.join(_tmpdir(), 'f_%d.img%s' % (hash_list(buf) ^ len(buf), '.gz' if gz else ''))
             if not os.path.exists(path):
-                with open(path, 'wb') as fh:
-                    fh.write(buf)
+                if gz:
+                    import gzip
+                    with gzip.open(path, 'wb') as fh:
+                        fh.write(buf)
+                else:
+                    with open(path, 'wb') as fh:
+                        fh.write(buf)
             proxies = [TProxy(path, spec, mmap=bool(d['mmap']), order=order, keep_file_open=True)]
 
         def mk(t):
@@ -1451,6 +1636,8 @@ def trace_positions(events):
     positioned it last must be the reader itself."""
     last = {}
     for ev in events:
+        if '.' not in ev:
+            continue          # empty trace (e.g. only zero-segment reads)
         t, tok = ev.split('.', 1)
         k = tok[0]
         if k in 'seRt' and not tok.startswith('seek?'):
